@@ -55,7 +55,7 @@ def main():
     val = {}
     for f in glob.glob(os.path.join(HERE, ".build", "validate_seeds.log")) + glob.glob(os.path.join(HERE, ".build", "seed_queue*.log")):
         for line in open(f):
-            m = re.match(r"(C\d\d_\d): demo_on_pristine_exit=(\d+) demo_with_patch_exit=(\d+) suite_with_patch_exit=(\d+)", line)
+            m = re.match(r"(C\d\db?_\d): demo_on_pristine_exit=(\d+) demo_with_patch_exit=(\d+) suite_with_patch_exit=(\d+)", line)
             if m:
                 val[m.group(1)] = dict(demo_on_unchanged_tree="passes" if m.group(2) == "0" else "FAILS", demo_with_change="fails" if m.group(3) != "0" else "PASSES",
                                        existing_suite_with_change="passes" if m.group(4) == "0" else "FAILS")
@@ -64,7 +64,7 @@ def main():
         if not os.path.exists(f):
             continue
         for line in open(f):
-            m = re.match(r"(C\d\d_\d) (C\d\d) exit=(\d+) (\d+) violation-lines; (.*)", line)
+            m = re.match(r"(C\d\db?_\d) (C\d\d) exit=(\d+) (\d+) violation-lines; (.*)", line)
             if m:
                 det.setdefault(m.group(1), {})[m.group(2)] = dict(check_exit=int(m.group(3)), violation_lines=int(m.group(4)), summary=m.group(5).strip()[:200])
     for sid, (prop, what, needs) in sorted(NEEDS.items()):
